@@ -220,6 +220,15 @@ class JsonMakerV2:
         self._registry = registry or CobaRegistry.registry
 
     def make(self, recipe:Union[dict,str], strict:bool = True) -> Any:
+        try:
+            return self._make(recipe, strict)
+        except CobaException:
+            raise
+        except Exception as e:
+            #e.g., a "for" that can't be iterated, a "$i" out of range, a constructor that refuses its arguments
+            raise CobaException(f"We were unable to make {recipe}.") from e
+
+    def _make(self, recipe:Union[dict,str], strict:bool = True) -> Any:
         if isinstance(recipe,str) and recipe in self._registry:
             return self._registry[recipe]()
 
